@@ -378,3 +378,7 @@ _add(
     m("nested-retry-guard-removed", D, "        if thread_id in active:\n            return func(self, *args, **kwargs)\n", "", "C22.6"),
     m("nested-retry-guard-after-loop-setup", D, "        active.add(thread_id)\n        try:\n            return retry(self, *args, **kwargs)\n        finally:\n            active.discard(thread_id)", "        return retry(self, *args, **kwargs)", "C22.6"),
 )
+_add(
+    "C25",
+    m("fork-edge-dropped", D, "        for fork_parent, fork in fork_edges:\n            get_or_create(\n                self.session,\n                HandleEdge,\n                {\n                    \"parent_id\": fork_parent.__handle__.hash,\n                    \"child_id\": fork.__handle__.hash,\n                },\n            )\n", "", "C25.3"),
+)
